@@ -13,7 +13,7 @@
 (*      modelled by the constant Skew, as a small state machine                         *)
 (*      Slice -> DropSmall -> CheckMin that TLC explores for all small inputs;          *)
 (*   3. the clause operators used by Trace_C10 to judge recorded executions.            *)
-EXTENDS Integers, Sequences, FiniteSets, Fix
+EXTENDS Integers, Sequences, FiniteSets, SequencesExt, Fix
 
 ----------------------------------------------------------------------------
 (* 1. declarative semantics                                                   *)
@@ -60,14 +60,8 @@ HiQ(i, lo, upw) == 4 * lo + 4 * i * upw
 
 (* median (x4) of the data values selected by a mask; -1 for an empty selection *)
 SortedVals(data, mask) ==
-    LET idx == Ones(mask)
-        vals == {data[j] : j \in idx}
-        RECURSIVE Rep(_, _)
-        Rep(v, k) == IF k = 0 THEN <<>> ELSE <<v>> \o Rep(v, k - 1)
-        RECURSIVE Build(_)
-        Build(v) == IF vals = {} \/ v > SetMax(vals) THEN <<>>
-                    ELSE Rep(v, Cardinality({j \in idx : data[j] = v})) \o Build(v + 1)
-    IN IF vals = {} THEN <<>> ELSE Build(SetMin(vals))
+    LET idx == SetToSeq(Ones(mask))
+    IN SortSeq([i \in 1..Len(idx) |-> data[idx[i]]], <)
 MedianQ(data, mask) ==
     LET s == SortedVals(data, mask) n == Len(s)
     IN IF n = 0 THEN -1
